@@ -233,10 +233,7 @@ Theorem C01_hourly_roundtrip_fields : forall s d, wf_hourly s -> hourly_to_doc s
     hs_coef s' = hs_coef s /\ hs_intercept s' = hs_intercept s /\ hs_metrics s' = hs_metrics s /\
     hs_tz s' = hs_tz s /\ hs_warnings s' = hs_warnings s /\ hs_dq s' = hs_dq s /\ hs_error s' = hs_error s /\
     hs_version s' = hs_version s.
-Proof.
-  intros s d Hwf Hd He. rewrite (C01_hourly_from_doc_to_doc s d Hwf Hd). destruct (hs_edge_coeffs s) eqn:E; [|contradiction].
-  eexists. split; [reflexivity|]. cbn. rewrite E. repeat split.
-Qed.
+Proof. exact (hourly_roundtrip_fields_l hpaths). Qed.
 Print Assumptions C01_hourly_roundtrip_fields.
 
 (* the prediction, as any function of the fields it reads, whose arithmetic does not tell an int from the equal float *)
@@ -265,10 +262,7 @@ Theorem C01_hourly_edge_keys_restored : forall s d n, wf_hourly s -> hourly_to_d
     | Some l', Some l => edge_lookup n l' = edge_lookup n l
     | _, _ => False
     end.
-Proof.
-  intros s d n Hwf Hd He. rewrite (C01_hourly_from_doc_to_doc s d Hwf Hd). destruct (hs_edge_coeffs s) eqn:E; [|contradiction].
-  eexists. split; [reflexivity|]. cbn. rewrite E. reflexivity.
-Qed.
+Proof. exact (hourly_edge_keys_restored_l hpaths). Qed.
 Print Assumptions C01_hourly_edge_keys_restored.
 
 (* witnesses *)
@@ -472,7 +466,7 @@ Proof.
   destruct Hd as [d Hd].
   destruct (H ct_witness d ct_witness_wf Hk Hd) as (d1 & s' & Hd1 & Hf & _ & Hu & _).
   rewrite Hd in Hd1. injection Hd1 as <-.
-  rewrite (ct_from_to false ct_witness d ct_witness_wf Hd) in Hf. injection Hf as <-.
+  unfold ct_from_doc in Hf. rewrite (ct_from_to false ct_witness d ct_witness_wf Hd) in Hf. injection Hf as <-.
   specialize (Hu 1%Z). vm_compute in Hu. discriminate Hu.
 Qed.
 Print Assumptions C01_caltrack_statement_refuted.
